@@ -322,7 +322,52 @@ def directed(ctx):
     return cases
 
 
+def paired_rounds(ctx):
+    """the rounds of `--times` on R2 (and R1) of a paired-end run: the same adapter list given for both reads (`-a/-g/-b` and `-A/-G/-B`), both mates
+    the same sequence - each mate must come out exactly as the read comes out of the single-end run with that list (which the rule oracle judges)"""
+    n = 0
+    for case in directed(ctx):
+        argv = case["argv"]
+        if "--times" not in argv or n >= ctx.scale(25, 300):
+            continue
+        n += 1
+        pargv, i = [], 0
+        while i < len(argv):
+            t = argv[i]
+            if t in ("-a", "-g", "-b"):
+                pargv += [t, argv[i + 1], t.upper(), argv[i + 1]]
+                i += 2
+            elif t == "-o":
+                pargv += ["-o", "{dir}/o1.fastq", "-p", "{dir}/o2.fastq"]
+                i += 2
+            else:
+                pargv.append(t)
+                i += 1
+        pcase = dict(case, argv=pargv, paired=True, reads2=[(n_, s_, q_) for n_, s_, q_ in case["reads1"]])
+        _, single = pipe.run_real(case)
+        _, paired = pipe.run_real(pcase)
+        ctx.evaluations += 2
+        ctx.count("paired-rounds")
+        if "error" in single or "error" in paired:
+            if ("error" in single) != ("error" in paired):
+                ctx.failures.append(Failure("C09/paired-rounds-status", "the paired-end run with the same adapter list on both reads fails (or succeeds) where "
+                                            "the single-end run does not", case_input(pcase), paired.get("error"), single.get("error")))
+            continue
+        want = {rid(r[0]): r[1] for r in single["files"].get("o1.fastq", [])}
+        for fn in ("o1.fastq", "o2.fastq"):
+            got = {rid(r[0]): r[1] for r in paired["files"].get(fn, [])}
+            bad = [k for k in want if got.get(k) != want[k]]
+            if bad:
+                ctx.failures.append(Failure("C09/paired-rounds-differ", f"{'R2' if fn[1] == '2' else 'R1'} of a paired-end run is not trimmed as the same read is in a "
+                                            "single-end run with the same adapters, --times and action (further rounds search the already trimmed read)",
+                                            case_input(pcase), dict(read=bad[0], got=got.get(bad[0])), dict(expected=want[bad[0]])))
+                break
+        else:
+            ctx.nontriv(("paired-rounds", tuple(pargv)))
+
+
 def run(ctx):
+    paired_rounds(ctx)
     pipeprop.run(ctx, "C09", FOCUS, oracle, 200, 4000,
                  "random command lines with adapter lists of mixed types (incl. linked), --times, actions, plus directed near-ties and linked adapters with every "
                  "anchoring x required/optional x -a/-g; non-trivial = distinct read trimmed in more than one round", nontrivial=lambda c, r: False)
